@@ -185,8 +185,10 @@ def gen_tree(r, max_files=12):
                 continue
         elif kind < 0.9:
             tgt = None       # broken
-        elif kind < 0.95 and len(dirs) > 1:
-            tgt = r.choice(dirs)          # link to a directory inside the tree (possibly an ancestor: a loop)
+        elif kind < 0.95 and len(dirs) > 1 and not any(l.endswith(('/loop', '/up')) for l in links):
+            # link to a directory inside the tree (possibly an ancestor: a loop).  At most ONE per tree: one loop makes
+            # os.walk(followlinks=True) go ~40 levels deep until ELOOP, two make it visit 2^20 paths
+            tgt = r.choice(dirs)
             name = d + '/' + r.choice(['loop', 'up'])
             if name in used:
                 continue
